@@ -1580,9 +1580,13 @@ func isComplexAggregationExpression(expr string) bool {
 	}
 
 	// Determine the outermost function name (if any)
+	// A leading call is the outermost function only when its closing parenthesis ends the
+	// expression: in "AVG(t) * 1.8 + 32" AVG is an operand, not the outer function.
 	outerFuncName := ""
-	if m := regexp.MustCompile(`(?i)^\s*([a-z_][a-z0-9_]*)\s*\(`).FindStringSubmatch(expr); len(m) == 2 {
-		outerFuncName = strings.ToLower(m[1])
+	if m := regexp.MustCompile(`(?i)^\s*([a-z_][a-z0-9_]*)\s*\(`).FindStringSubmatchIndex(expr); len(m) == 4 {
+		if cp := findMatchingParenInternal(expr, m[1]-1); cp >= 0 && strings.TrimSpace(expr[cp+1:]) == "" {
+			outerFuncName = strings.ToLower(expr[m[2]:m[3]])
+		}
 	}
 	outerIsAggregation := false
 	if outerFuncName != "" {
